@@ -23,7 +23,9 @@ PID = "C17"
 BOUNDS = ("path = k segments (k<=4 quick; thorough adds k=5 for 10 seeded length vectors of the first three segments per route and spelling), each 0..3 chars over {. q z _}; spelling in "
           "{relative, absolute under the working directory, double-slash absolute}; root directory name 2 chars over {q z _} "
           "directly below the working directory (or one level deeper); routes POST /script, /lineage, /directory with f or d, or with BOTH (2+2 segments quick, 2+3 / 3+2 thorough, five spelling pairs, either key order), "
-          "GET /<path> with the static folder under a symbolic 2-character name in the scratch tree; POSIX paths, no symlinks")
+          "GET /<path> with the static folder under a symbolic 2-character name in the scratch tree; additional POST instances with the root AT the working directory "
+          "(k=2; thorough 3) or at its parent (k=3; thorough 4), segments then over {. q z _ ~} with os.path.expanduser / Path.expanduser in the model (HOME = a "
+          "directory of the scratch tree outside every root; other users' homes are not modelled); POSIX paths, no symlinks")
 STUBS = ["pathlib.Path, os, open, json, mimetypes as seen by sqllineage.drawing and sqllineage.utils.helpers -> LxPath model "
          "(worst-case environment: every path exists and can be read)",
          "sqllineage.runner.LineageRunner as seen by the /lineage route -> inert object (analysis is beyond the I/O boundary)"]
